@@ -60,6 +60,7 @@ def install(E):
             if v is None: return ('null',)
             if not cbor and has_method(e, t, 'MarshalJSON'): return custom(e, IfaceV(t, v), t)
             return enc(e, e.load(v), d['elem'], True, cbor)
+        if isinstance(v, Opaque): return ('obj', [])     # library structs with unexported fields only
         if k == 'struct':
             items = []
             for f, fv in zip(d['fields'] or [], v.f):
